@@ -326,9 +326,11 @@ def run_case(case, tier):
             for r0_, rT_ in zip(tab0, tabT):
                 for t_ in ("sidechain", "backbone", "coulomb"):
                     l0, lT = [x[1] for x in r0_["cells"][t_]], [x[1] for x in rT_["cells"][t_]]
-                    # (only where the two frames print the same values: with ligand hydrogens, which the
+                    # (only for rows whose printed values are all the same in both frames: with ligand hydrogens, which the
                     # statement exempts, the values - and with them the order the iteration adds terms in - may differ)
-                    same_values = sorted((x[1], x[0]) for x in r0_["cells"][t_]) == sorted((x[1], x[0]) for x in rT_["cells"][t_])
+                    same_values = r0_["pka"] == rT_["pka"] and all(
+                        sorted((x[1], x[0]) for x in r0_["cells"][u_]) == sorted((x[1], x[0]) for x in rT_["cells"][u_])
+                        for u_ in ("sidechain", "backbone", "coulomb"))
                     if l0 != lT and sorted(l0) == sorted(lT) and same_values:
                         viol.append({"cls": "pose-changes-report-order", "msg": "row %s, %s determinants: %r in the original frame, %r after the motion" % (
                             r0_["label"], t_, l0[:4], lT[:4])})
